@@ -63,6 +63,8 @@ pub struct StreamDecryptor<R: BufRead> {
     source: R,
     /// finished reading from source?
     is_source_done: bool,
+    /// did reading or decrypting fail?
+    is_failed: bool,
     /// main buffer
     #[debug("{}", hex::encode(buffer))]
     buffer: BytesMut,
@@ -111,6 +113,7 @@ impl<R: BufRead> StreamDecryptor<R> {
             chunk_size_expanded,
             source,
             is_source_done: false,
+            is_failed: false,
             buffer: BytesMut::with_capacity(2 * (chunk_size_expanded + AEAD_TAG_SIZE)),
             in_buffer_end: 0,
             out_buffer_start: 0,
@@ -156,6 +159,7 @@ impl<R: BufRead> StreamDecryptor<R> {
             chunk_size_expanded,
             source,
             is_source_done: false,
+            is_failed: false,
             buffer: BytesMut::with_capacity(2 * (chunk_size_expanded + AEAD_TAG_SIZE)),
             in_buffer_end: 0,
             out_buffer_start: 0,
@@ -261,6 +265,21 @@ impl<R: BufRead> StreamDecryptor<R> {
         Ok(())
     }
 
+    /// Fills the buffer and remembers a failure: once the stream failed, nothing more is handed out.
+    fn fill_checked(&mut self) -> io::Result<()> {
+        if self.is_failed {
+            return Err(io::Error::other("decryptor is in error state"));
+        }
+
+        match self.fill_inner() {
+            Ok(()) => Ok(()),
+            Err(err) => {
+                self.is_failed = true;
+                Err(err)
+            }
+        }
+    }
+
     fn fill_inner(&mut self) -> io::Result<()> {
         if self.out_buffer_remaining() > 0 || self.is_source_done {
             return Ok(());
@@ -310,7 +329,7 @@ impl<R: BufRead> StreamDecryptor<R> {
 
 impl<R: BufRead> BufRead for StreamDecryptor<R> {
     fn fill_buf(&mut self) -> io::Result<&[u8]> {
-        self.fill_inner()?;
+        self.fill_checked()?;
         Ok(self.out_buffer())
     }
 
@@ -321,7 +340,7 @@ impl<R: BufRead> BufRead for StreamDecryptor<R> {
 
 impl<R: BufRead> Read for StreamDecryptor<R> {
     fn read(&mut self, buf: &mut [u8]) -> io::Result<usize> {
-        self.fill_inner()?;
+        self.fill_checked()?;
         let to_write = self.out_buffer_remaining().min(buf.len());
         buf[..to_write].copy_from_slice(&self.out_buffer()[..to_write]);
         self.out_buffer_start += to_write;
